@@ -94,6 +94,9 @@ End Consts.
     m64 = numeric_limits<unsigned long long>::max()  are static constexpr in the code; the
     functions below take them as arguments (evaluated once per history), and the entry points at
     the end of the file instantiate them with [ones w], [padding_mask_inv bits w], [ones 64]. *)
+(* basic_string_view::npos = size_t(-1) *)
+Definition npos : N := 18446744073709551615%N.
+
 Section Bitset.
 Variable bits : nat.
 Variable w : nat.
@@ -216,6 +219,22 @@ Definition of_string (str : list N) (pos : nat) (n : N) (zero one : N) : res (li
                      if N.eqb ch zero then set_raw ws1 i false else ws1)
                   (seq 0 m) (of_ullong 0)).
 
+(* bitset(CharT const* str, n, zero, one)
+     : bitset(n == npos ? basic_string_view(str) : basic_string_view(str, n), 0, n, zero, one)
+   basic_string_view(str) has length char_traits::length(str) = the characters in front of the first NUL;
+   basic_string_view(str, n) the first n characters of the array.  The array is arr ++ [0] (see Ops.v);
+   n = length arr when counted (never beyond the array), npos otherwise *)
+Fixpoint c_str_view (arr : list N) : list N :=
+  match arr with
+  | [] => []
+  | c :: r => if N.eqb c 0 then [] else c :: c_str_view r
+  end.
+
+Definition of_cstring (arr : list N) (counted : bool) (zero one : N) : res (list N) :=
+  let n := if counted then N.of_nat (length arr) else npos in
+  let sv := if N.eqb n npos then c_str_view arr else firstn (N.to_nat n) arr in
+  of_string sv 0 n zero one.
+
 (** Histories: a two-register machine (current set, other set); alphabet in Ops.v *)
 
 Definition state : Type := list N * list N.
@@ -250,6 +269,15 @@ Definition step_k (st : state) (o : op) : res (state * list bool) :=
   | OSwap => Ok ((oth, cur), [])
   | OTest pos =>
       rbind (test_pos cur pos) (fun b => Ok ((cur, oth), [b; b; b; negb b]))
+  (* cur[pos] = cur[src]: both proxies point into cur; the source bit is read (operator bool of x)
+     before the destination word is written *)
+  | ORefCopySelf pos src =>
+      rbind (test_pos cur src) (fun b => upd_cur (set_pos cur pos b))
+  (* transform(begin, end, other.begin, begin, f) with other = *this *)
+  | OAndSelf => Ok ((and_words cur cur, oth), [])
+  | OOrSelf => Ok ((or_words cur cur, oth), [])
+  | OXorSelf => Ok ((xor_words cur cur, oth), [])
+  | OCStr arr counted zero one => upd_cur (of_cstring arr counted zero one)
   end.
 
 (* what is observed after every step: to_string('0','1'), count, all, any, none,
